@@ -660,6 +660,13 @@ package regexp2
 //@     invariant g.Name == name && g.text == text && (capcount > 0 ==> g.RuneIndex == caps[2*capcount-2] && g.RuneLength == caps[2*capcount-1]) && (capcount == 0 ==> g.RuneIndex == 0 && g.RuneLength == 0)
 //@     decreases capcount - i
 
+// the name the table (GetGroupNames order) gives to the group at position i: what Match.Groups()[i].Name has to be
+//@ spec func NameAtIndex(re *Regexp, i int) string = ite(re.capslist == nil, strconv.Itoa(i), ite(0 <= i && i < len(re.capslist), re.capslist[i], ""))
+//@ func (re *Regexp) groupNameFromIndex(i int) (s string)
+//@   props C17
+//@   requires re != nil
+//@   ensures s == NameAtIndex(re, i)
+
 //@ spec func GroupInside(m *Match, i int) bool = m.otherGroups[i].text == m.text && 0 <= m.otherGroups[i].RuneIndex && 0 <= m.otherGroups[i].RuneLength && m.otherGroups[i].RuneIndex + m.otherGroups[i].RuneLength <= len(m.text.runes)
 //@ func (m *Match) populateOtherGroups()
 //@   props C08 C17
@@ -674,8 +681,10 @@ package regexp2
 //@             (m.matchcount[i+1] > 0 ==> m.otherGroups[i].RuneIndex == m.matches[i+1][2*m.matchcount[i+1]-2] && m.otherGroups[i].RuneLength == m.matches[i+1][2*m.matchcount[i+1]-1]) &&
 //@             (m.matchcount[i+1] == 0 ==> m.otherGroups[i].RuneIndex == 0 && m.otherGroups[i].RuneLength == 0)
 //@   ensures[inside] old(m.otherGroups) == nil && m.text != nil && AllLastCapsInText(m) ==> forall i int :: 0 <= i && i < len(m.otherGroups) ==> GroupInside(m, i)
+//@   ensures[names]  old(m.otherGroups) == nil ==> forall i int :: 0 <= i && i < len(m.otherGroups) ==> m.otherGroups[i].Name == NameAtIndex(m.regex, i+1)
 //@   loop 0:
 //@     invariant[inside] m.text != nil && AllLastCapsInText(m) ==> forall k int :: 0 <= k && k < i ==> GroupInside(m, k)
+//@     invariant[names]  forall k int :: 0 <= k && k < i ==> m.otherGroups[k].Name == NameAtIndex(m.regex, k+1)
 //@     invariant 0 <= i && i <= len(m.otherGroups) && len(m.otherGroups) == len(m.matchcount) - 1 && fresh(m.otherGroups) && off(m.otherGroups) == 0 && m.otherGroups != nil
 //@     invariant forall k int :: 0 <= k && k < i ==>
 //@             len(m.otherGroups[k].Captures) == m.matchcount[k+1] && m.otherGroups[k].text == m.text &&
